@@ -540,6 +540,10 @@ pub fn generate_c15(tier: &str, rng: &mut Prng) -> Vec<Case> {
         for seed in crate::seeds::special(n, tier, "long_rejection", 2) {
             ops.push(Case::new(format!("keygen_digest {n} {}", hex(&seed))));
         }
+        // seeds for which 65 or more candidates are drawn before one is accepted
+        for seed in crate::seeds::special(n, tier, "many_candidates", 1) {
+            ops.push(Case::new(format!("keygen_digest {n} {}", hex(&seed))));
+        }
         // seeds made of extreme byte values (arithmetic on seed bytes that saturates or wraps loses bits exactly there)
         let extremes: Vec<Vec<u8>> = if thorough {
             vec![vec![0xffu8; 32], vec![0x80u8; 32], vec![0x7fu8; 32], vec![0xf0u8; 32], vec![0x0fu8; 32]]
@@ -624,7 +628,16 @@ pub fn oracle_c15(op: &[&str], out: &str) -> Verdict {
             s32.resize(32, 0);
             let extreme = seed.len() == 32 && seed.iter().all(|&b| b == seed[0]) && seed[0] != 0;
             let bits: Vec<usize> = if extreme {
-                (0..8).chain(128..136).chain(248..256).collect()
+                // every bit of the first, a middle and the last byte, and the lowest and highest bit of every byte (arithmetic
+                // on 16/32/64-bit words of the seed that saturates or wraps loses exactly such bits)
+                let mut b: Vec<usize> = (0..8).chain(128..136).chain(248..256).collect();
+                for k in 0..32 {
+                    b.push(8 * k);
+                    b.push(8 * k + 7);
+                }
+                b.sort();
+                b.dedup();
+                b
             } else {
                 vec![0, 7, 100, 191, 248, 249, 250, 251, 252, 253, 254, 255]
             };
